@@ -366,10 +366,8 @@ def run_unit(unit):
               "rules": ["%s x%d" % (r["rule"], r["count"]) for r in finfo[fid]["rules"]]}
         my_errs = [e for e in errs if e["function"] == fid or (e["function"] is None and vname.split("::")[-1] in e["text"])]
         if fb is None:
-            if vr.get("success") and not my_errs:
-                fr.update(status="success", time_s=0.0, smt_s=0.0, note="no SMT query needed")
-            else:
-                fr.update(status="undecided", reason="function %s missing from verus function breakdown" % vname)
+            # vacuity guard: a function Verus did not send a query for (wrong name, nothing to prove) is never counted as proved
+            fr.update(status="undecided", reason="function %s missing from verus function breakdown" % vname)
         else:
             fr.update(time_s=fb.get("time-micros", 0) / 1e6, smt_s=fb.get("time-micros", 0) / 1e6, rlimit=fb.get("rlimit"))
             if fb.get("success"):
